@@ -14,7 +14,10 @@ independent first-principles references (braxlint/refkin.py):
                       <= 5 (thorough: 6) links (shared with C01 R1.2).
   R2.4 step         == semi-implicit Euler with implicit joint damping: qdd = (M + dt diag(d))^-1 f,
                       qd' = qd + dt qdd, q' = q + dt qd' (free joints: quaternion integrated with the
-                      body-frame angular velocity), when no contact or limit is met.
+                      body-frame angular velocity), when no contact or limit is met; the tau of the step is
+                      actuator.to_tau(sys, act, q, qd) of the current state and the given control.
+  R2.6 actuation    actuator.to_tau is the reference engine's force law gear * clip(gain * clip(ctrl) +
+                      gear * (q bias_q + qd bias_qd)) scattered by qd_id (shared with C11 R11.1).
 """
 import os
 
@@ -157,12 +160,16 @@ def one(U, links, seed):
       bad.append('smooth force = passive - bias + tau')
     # one contact-free, limit-free step of the whole pipeline
     I.contracts[('brax.contact', 'get')] = lambda s, x: None
-    I.contracts[('brax.actuator', 'to_tau')] = lambda s, a, q, qd: tau
+    seen = []
+    I.contracts[('brax.actuator', 'to_tau')] = lambda s, a, q, qd: (seen.append((a, q, qd)), tau)[1]
     cls = ClsRef(GB, load(GB)['classes']['State'])
     st0 = st.f
     st_full = Struct('State', dict(st0, mass_mx=mx, mass_mx_inv=P_zeros((M.nv, M.nv)),
                                    con_jac=P_zeros((0, M.nv)), con_diag=P_zeros((0,)), con_aref=P_zeros((0,))), home=GB)
-    out = I.apply(fn('brax.generalized.pipeline', 'step'), [sysd, st_full, symarr('u', (0,))], {})
+    u_in = symarr('u', (2,))
+    out = I.apply(fn('brax.generalized.pipeline', 'step'), [sysd, st_full, u_in], {})
+    if not (len(seen) == 1 and same(seen[0][0], u_in) and same(seen[0][1], st0['q']) and same(seen[0][2], st0['qd'])):
+      bad.append('step: tau = actuator.to_tau(sys, act, q, qd) of the CURRENT state and the given control')
     q2, qd2 = ref_step(M, sysd, Mref, ref_passive(M, sysd) - bref + tau)
     if not same(out.f['qd'], qd2):
       bad.append('step: qd\' = qd + dt (M + dt D)^-1 f')
@@ -179,6 +186,9 @@ def run(U, rep, tier):
   # is specified for EVERY forest of <= 5 (6) links (shared with C01 R1.2) -- the topologies below are instances
   from braxlint.props import c01
   c01.scan_spec(U, rep, tier, rule='R2.5')
+  # R2.6: the actuation part of the smooth force is the reference engine's actuator force law (shared with C11 R11.1)
+  from braxlint.props import c11
+  c11.force_law(U, rep, tier, rule='R2.6')
   f = U.func('brax.generalized.pipeline.step')
   s0 = int(os.environ.get('VERIF_SEED', '0') or 0)
   seeds = [s0 * 1000 + t for t in range(2 if tier == 'quick' else 5)]
@@ -191,12 +201,19 @@ def run(U, rep, tier):
       calls += c
       for x in b:
         found.setdefault(x, sd)
+    TERMS = ('mass matrix', 'mass matrix symmetry', 'bias force (Coriolis/centrifugal/gravity)', 'passive force',
+             'smooth force = passive - bias + tau', "step: qd' = qd + dt (M + dt D)^-1 f",
+             "step: q' = q + dt qd' (semi-implicit, quaternion for free joints)",
+             'step: tau = actuator.to_tau(sys, act, q, qd) of the CURRENT state and the given control')
+    if set(found) - set(TERMS):
+      raise AnalysisError('C02: unreported term(s) %r' % sorted(set(found) - set(TERMS)))
     for term, where in (('mass matrix', 'brax.generalized.mass.matrix'), ('mass matrix symmetry', 'brax.generalized.mass.matrix'),
                         ('bias force (Coriolis/centrifugal/gravity)', 'brax.generalized.dynamics.inverse'),
                         ('passive force', 'brax.generalized.dynamics._passive'),
                         ('smooth force = passive - bias + tau', 'brax.generalized.dynamics.forward'),
                         ("step: qd' = qd + dt (M + dt D)^-1 f", 'brax.generalized.integrator.integrate'),
-                        ("step: q' = q + dt qd' (semi-implicit, quaternion for free joints)", 'brax.generalized.integrator.integrate')):
+                        ("step: q' = q + dt qd' (semi-implicit, quaternion for free joints)", 'brax.generalized.integrator.integrate'),
+                        ('step: tau = actuator.to_tau(sys, act, q, qd) of the CURRENT state and the given control', 'brax.generalized.pipeline.step')):
       rule = {'mass': 'R2.1', 'bias': 'R2.2', 'pass': 'R2.3', 'smoo': 'R2.3', 'step': 'R2.4'}[term[:4]]
       rep.check(term not in found, rule, '%s [%s]' % (term, name),
                 lambda term=term: '%s differs from the first-principles reference (random-interpretation trial seed %d)' % (term, found[term]),
